@@ -667,15 +667,19 @@ Qed.
 Lemma bit_zero id : bit 0 id = false.
 Proof. unfold bit. apply N.bits_0. Qed.
 
-Lemma retire_table_rok w tid t nd r :
+Lemma retire_table_rok_gen w tid t nd r :
   rgraph_ok w -> w_tables w !! tid = Some t -> w_nodes w !! t_node t = Some nd -> n_rel nd = Some r ->
-  t_active t = true -> tlen t = 0 -> rgraph_ok (retire_table w tid).
+  t_active t = true -> rgraph_ok (retire_table w tid).
 Proof.
-  intros G Ht Hnd Hrel Hact Hlen. unfold retire_table. rewrite Ht, Hnd.
-  assert (Hreset : tbl_reset (zero_row nd) t = t) by (unfold tbl_reset; by rewrite Hlen).
-  rewrite Hreset.
+  intros G Ht Hnd Hrel Hact. unfold retire_table. rewrite Ht, Hnd.
+  set (t0 := tbl_reset (zero_row nd) t).
+  assert (Hf0 : t_node t0 = t_node t /\ t_target t0 = t_target t /\ t_ents t0 = []).
+  { unfold t0, tbl_reset. destruct (tlen t =? 0) eqn:He; [|done]. apply Nat.eqb_eq in He. unfold tlen in He. by destruct (t_ents t). }
+  destruct Hf0 as (Hn0' & Htg0 & He0).
   set (nid := t_node t) in *.
-  set (t' := t <| t_active := false |>).
+  set (t' := t0 <| t_active := false |>).
+  assert (Hn' : t_node t' = nid) by exact Hn0'.
+  assert (He' : t_ents t' = []) by exact He0.
   set (nd' := nd <| n_tmap := assoc_del (t_target t) (n_tmap nd) |> <| n_free := n_free nd ++ [tid] |>).
   set (tabs := <[tid := t']> (w_tables w)).
   set (cache := map (centry_remove tid) (w_cache w)).
@@ -684,7 +688,6 @@ Proof.
   change (rgraph_ok w1).
   assert (Htl : forall j, w_tables w1 !! j = if decide (j = tid) then Some t' else w_tables w !! j).
   { intros j. simpl. unfold tabs. eapply lookup_insert_cases. exact Ht. }
-  assert (Hents : t_ents t = []) by (unfold tlen in Hlen; by destruct (t_ents t)).
   destruct (rg_table _ G tid t Ht) as (n0 & Hn0 & Hintab & Hrest0). fold nid in Hn0. rewrite Hnd in Hn0. injection Hn0 as <-.
   rewrite Hrel, Hact in Hrest0.
   destruct (rg_free _ G nid nd Hnd) as [Hfnd Hfall].
@@ -692,7 +695,7 @@ Proof.
   { intros Hin. destruct (Hfall tid Hin) as (t1 & Ht1 & _ & Ha). rewrite Ht in Ht1. injection Ht1 as <-. congruence. }
   split; try done.
   - intros tid0 t1 Ht1. rewrite Htl in Ht1. destruct (decide (tid0 = tid)) as [->|Hne].
-    + injection Ht1 as <-. exists nd'. change (t_node t') with nid. rewrite Hnl. destruct (decide (nid = nid)); [|done].
+    + injection Ht1 as <-. exists nd'. rewrite Hn', Hnl. destruct (decide (nid = nid)); [|done].
       split; [done|]. split; [done|]. change (n_rel nd') with (n_rel nd). rewrite Hrel. simpl.
       split; [apply elem_of_app; right; apply elem_of_list_here|done].
     + destruct (rg_table _ G tid0 t1 Ht1) as (n1 & Hn1 & Hin & Hrest).
@@ -708,7 +711,7 @@ Proof.
     assert (Hgen : forall n0, w_nodes w !! j = Some n0 -> tid0 ∈ n_tables n0 -> exists t1, w_tables w1 !! tid0 = Some t1 /\ t_node t1 = j).
     { intros n0 Hn0 Hin0'. destruct (rg_ntables _ G j n0 tid0 Hn0 Hin0') as (t1 & Ht1 & Htn). rewrite Htl.
       destruct (decide (tid0 = tid)) as [->|]; [|by exists t1]. exists t'. split; [done|].
-      rewrite Ht in Ht1. injection Ht1 as <-. done. }
+      rewrite Ht in Ht1. injection Ht1 as <-. by rewrite Hn'. }
     rewrite Hnl in Hn. destruct (decide (j = nid)) as [->|]; [injection Hn as <-; by apply (Hgen nd)|by apply (Hgen n)].
   - intros j n tg tid0 Hn Hg.
     assert (Hgen : forall n0, w_nodes w !! j = Some n0 -> assoc_get tg (n_tmap n0) = Some tid0 -> tg <> t_target t \/ j <> nid ->
@@ -743,6 +746,11 @@ Proof.
   - intros j n tid0 Hn Hin. rewrite Hnl in Hn. destruct (decide (j = nid)) as [->|]; [injection Hn as <-; by apply (rg_active _ G nid nd tid0)|by apply (rg_active _ G j n tid0)].
   - intros j n Hn. rewrite Hnl in Hn. destruct (decide (j = nid)) as [->|]; [injection Hn as <-; by apply (rg_tnodup _ G nid nd)|by apply (rg_tnodup _ G j n)].
 Qed.
+
+Lemma retire_table_rok w tid t nd r :
+  rgraph_ok w -> w_tables w !! tid = Some t -> w_nodes w !! t_node t = Some nd -> n_rel nd = Some r ->
+  t_active t = true -> tlen t = 0 -> rgraph_ok (retire_table w tid).
+Proof. intros G Ht Hnd Hrel Hact _. by eapply retire_table_rok_gen. Qed.
 
 Lemma cleanup_table_rok w tid : rgraph_ok w -> rgraph_ok (cleanup_table w tid).
 Proof.
